@@ -422,6 +422,9 @@ func Run(t *testing.T, sch Schedule, maxSteps int, body func(sim *Sim)) (res *Re
 			}
 		}
 	}()
+	// the simulator's sync.Pool (tools/cmd/rtoverlay) keeps what is put into it:
+	// every run starts with empty pools, like a fresh process
+	sync.VerifResetPools()
 	synctest.Test(t, func(t *testing.T) {
 		s := verifsim.New()
 		s.Wait = synctest.Wait
